@@ -192,6 +192,44 @@ PROPS["C38"] = pure_plan("exploration", [("c38", ["--cases", 20000], 4)], [("c38
                          assumptions=["two configurations: default build (simd via `wide`) and --no-default-features (scalar fallback); each judged against an f64 reference"])
 
 
+# ---- E1 history driver properties -----------------------------------------------------------------
+def drive_plan(level, mode, quick_args, thorough_args, quick_shards=16, thorough_shards=16, design="", assumptions=None,
+               custom=None, timeout=3400):
+    def run(pid, tier, seed, scratch):
+        bindir = main_bins()
+        mvdrive = os.path.join(bindir, "mvdrive")
+        args = ["--property", pid] + (quick_args if tier == "quick" else thorough_args)
+        shards = quick_shards if tier == "quick" else thorough_shards
+        reports, notes = C.run_sharded(mvdrive, mode, args, shards, seed, scratch, timeout=timeout)
+        # keep only this property's verdicts: the shared workload runs other monitors' invariants too
+        for r in reports:
+            foreign = [v for v in r.get("violations", []) if not v["key"].startswith(pid + ":")]
+            r["violations"] = [v for v in r.get("violations", []) if v["key"].startswith(pid + ":")]
+            for v in foreign:
+                r.setdefault("counters", {})[f"other_property_violations[{v['key']}]"] = r["counters"].get(f"other_property_violations[{v['key']}]", 0) + 1
+                r["counters"].pop(f"violations[{v['key']}]", None)
+        extra = {"assumptions": list(assumptions or [])}
+        if custom:
+            r, n = custom(pid, tier, seed, scratch, bindir)
+            reports += r
+            notes += n
+        return reports, notes, extra
+    return {"level": level, "run": run, "design": design}
+
+
+_HIST_ASSUME = ["crash-free executions only (crashes are C02-C04)", "features: default + encryption; PDF/XLSX/CLIP/Whisper/replay paths are not driven",
+                "a history stops at its first violation, so later operations of that history are not judged"]
+PROPS["C01"] = drive_plan("exploration", "hist", ["--histories", 3, "--ops", 45], ["--histories", 60, "--ops", 70], assumptions=_HIST_ASSUME)
+PROPS["C06"] = drive_plan("exploration", "hist", ["--histories", 3, "--ops", 45], ["--histories", 60, "--ops", 70], assumptions=_HIST_ASSUME)
+PROPS["C07"] = drive_plan("exploration", "hist", ["--histories", 3, "--ops", 35], ["--histories", 50, "--ops", 60], assumptions=_HIST_ASSUME)
+def _c19_sidecar(pid, tier, seed, scratch, bindir):
+    return C.run_sharded(os.path.join(bindir, "mvdrive"), "sidecar", ["--rounds", 2 if tier == "quick" else 20], 2 if tier == "quick" else 8, seed, scratch)
+
+
+PROPS["C19"] = drive_plan("exploration", "hist", ["--histories", 3, "--ops", 45], ["--histories", 60, "--ops", 70], custom=_c19_sidecar,
+                          assumptions=_HIST_ASSUME + ["$TMPDIR points outside the memory's directory (Tantivy's scratch directory is not part of the guarantee)"])
+
+
 # ---- replay ----------------------------------------------------------------------------------
 def replay(pid, spec, path, scratch, t0):
     with open(path) as f:
@@ -218,7 +256,7 @@ def replay(pid, spec, path, scratch, t0):
         print(f"[{pid}] replay: not reproduced")
         return 0
     elif mode == "drive":
-        argv = [os.path.join(bindir, "mvdrive"), "replay", "--replay", dfile, "--scratch", scratch]
+        argv = [os.path.join(bindir, "mvdrive"), detail.get("replay_mode", "replay"), "--property", pid, "--replay", dfile, "--scratch", scratch]
     else:
         # generic: re-run the recorded monitor process with its recorded seed
         argv = rec.get("argv") or detail.get("argv")
@@ -230,7 +268,7 @@ def replay(pid, spec, path, scratch, t0):
     if rep is None:
         print(f"INCONCLUSIVE property={pid} run reason={note}")
         return 3
-    keys = {v["key"] for v in rep.get("violations", [])}
+    keys = {v["key"] for v in rep.get("violations", []) if v["key"].startswith(pid + ":") or v["key"].startswith("MIRI:")}
     if keys:
         print(f"VIOLATION property={pid} replay={path}")
         for k in sorted(keys):
